@@ -266,6 +266,13 @@ impl Sim {
                 self.slot(t);
                 let existed = self.graph_exists;
                 let mut expect = Expect::Ok;
+                if nodes.is_empty() && !self.graph_exists {
+                    expect = Expect::InitError;
+                }
+                if self.graph_exists && self.tm[t].stamp.is_none() {
+                    // the head-set stamp is read on the first add, even an empty one
+                    self.tm[t].stamp = Some(self.epoch);
+                }
                 for &x in nodes {
                     // stamp is captured once storage exists, before the remaining commands are handled
                     let e = self.model_add_one(t, x);
@@ -462,7 +469,12 @@ impl Sim {
                     Err(e) => classify(e),
                 };
                 self.outcome_classes.push(format!("action:{got}"));
-                if self.oracles.outcomes && got != expect_name(&expect) {
+                // An action that publishes nothing has no specified outcome (the statement speaks of
+                // the commands it published): it may succeed or fail, atomically either way.
+                if script.publish.is_empty() && expect == Expect::Ok && res.is_err() {
+                    expect = Expect::Internal;
+                    self.outcome_classes.push("action:empty-refused".into());
+                } else if self.oracles.outcomes && got != expect_name(&expect) {
                     self.viol("action-outcome", format!("action: runtime returned {got}, statement model expects {}", expect_name(&expect)));
                 }
                 // what the action saw
@@ -471,6 +483,12 @@ impl Sim {
                         let log = self.replica.log.borrow();
                         if let Some(view) = log.action_views.get(views_before) {
                             self.action_views_checked += 1;
+                            // model-independent: what queries saw before == what the action sees after the collapse
+                            if let Some(b) = &before {
+                                if &b.facts != view {
+                                    self.violations.push(("lazy-merge-view".into(), format!("fact cache before the action {} != facts visible inside call_action {}", crate::exec::show_facts(&b.facts), crate::exec::show_facts(view))));
+                                }
+                            }
                             if view != want {
                                 let msg = format!("facts visible inside call_action {} != reference state of the collapsed heads {}", crate::exec::show_facts(view), crate::exec::show_facts(want));
                                 drop(log);
@@ -496,12 +514,20 @@ impl Sim {
                     }
                 }
                 if self.oracles.effects {
-                    // collapse must emit nothing: between the action's sink.begin and its first own effect
+                    // One sink transaction per action: begin, the action's own effects, then commit
+                    // (success) or rollback (failure). The collapse of the heads must be silent.
                     let evs = &self.replica.sink.events[sink_before..];
-                    let pre: Vec<_> = evs.iter().take_while(|e| !matches!(e, rtlib::replica::SinkEv::Begin)).cloned().collect();
-                    if !pre.is_empty() {
-                        let msg = format!("sink saw {:?} before the action began (collapse must be silent)", pre);
-                        self.viol("collapse-effects", msg);
+                    let begins = evs.iter().filter(|e| matches!(e, rtlib::replica::SinkEv::Begin)).count();
+                    // on failure the statement only demands that no effects are committed
+                    let ends_ok = match (evs.last(), res.is_ok()) {
+                        (Some(rtlib::replica::SinkEv::Commit), true) => true,
+                        (_, false) => true,
+                        _ => false,
+                    };
+                    let commits = evs.iter().filter(|e| matches!(e, rtlib::replica::SinkEv::Commit)).count();
+                    if begins > 1 || !ends_ok || (res.is_err() && commits > 0) || (begins == 1 && !matches!(evs.first(), Some(rtlib::replica::SinkEv::Begin))) {
+                        let msg = format!("sink transcript of the action is {} (result {got})", crate::exec::sink_summary(evs));
+                        self.viol("action-sink", msg);
                     }
                 }
                 if expect == Expect::Ok {
